@@ -372,7 +372,18 @@ pub fn observe(case: &Case, with_schedules: bool, sample: Option<&mut Rng>) -> V
         missing.push(json!([name, resolve_class(&r)]));
     }
 
+    // one reported parameter left out at a time (the first two): applying the rest leaves exactly that one pending
+    let mut partial_obs = vec![];
+    for (name, _) in params.iter().take(2) {
+        let mut partial = args.clone();
+        partial.remove(name);
+        let (after, after_tx) = outcome_tx(guarded(|| reduce::apply_args(tx.clone(), &partial)));
+        let un = after_tx.as_ref().map(|t| unresolved_json(&unresolved_of(t))).unwrap_or(Value::Null);
+        partial_obs.push(json!([name, after, un]));
+    }
+
     let mut obs = json!({
+        "partial": partial_obs,
         "params": params.iter().map(|(k, t)| json!([k, ty_json(t)])).collect::<Vec<_>>(),
         "queries": queries.keys().collect::<Vec<_>>(),
         "query_bodies": queries.iter().map(|(k, q)| {
@@ -790,6 +801,21 @@ pub fn run_c07(opts: &Opts, out: &mut Emitter) {
             v
         });
     }
+    for (name, e) in concat_sweep() {
+        let mut t = empty_tx();
+        t.fees = fees_param();
+        t.outputs.push(tir::Output { address: tir::Expression::None, datum: e, amount: ada(2_000_000), optional: false });
+        let mut case = complete_case(&mut g, t);
+        case.args.insert("q".into(), ArgValue::Int(3));
+        case.args.insert("qb".into(), ArgValue::Bytes(vec![9]));
+        let thorough = opts.thorough;
+        out.case("concat-sweep", || {
+            let s = if thorough { None } else { Some(&mut sampler) };
+            let mut v = case_json(&case, observe(&case, true, s));
+            v["shape"] = json!(name);
+            v
+        });
+    }
     // query-shape sweep: an input block and a collateral block whose query states every subset of {address,
     // min_amount, ref}, each part written as a literal or as a parameter, single and multi: whatever a stage or a
     // reduction does to a pending query must not depend on which of its parts are there
@@ -865,6 +891,31 @@ pub fn run_c07(opts: &Opts, out: &mut Emitter) {
             case_json(&case, observe(&case, true, s))
         });
     }
+}
+
+/// Text- and bytes-valued expressions for the redex sweep of C07: concatenation over every pair of operand classes
+/// (empty and non-empty texts and byte strings, nothing, a number, pending parameters of both kinds).
+pub fn concat_sweep() -> Vec<(String, tir::Expression)> {
+    use tir::{BuiltInOp as B, Expression as E};
+    use tx3_tir::model::core::Type;
+    let palette: Vec<(&str, E)> = vec![
+        ("text-empty", E::String(String::new())),
+        ("text", E::String("ab".into())),
+        ("bytes-empty", E::Bytes(vec![])),
+        ("bytes", E::Bytes(vec![1, 2])),
+        ("none", E::None),
+        ("number", E::Number(7)),
+        ("pending-number", param("q", Type::Int)),
+        ("pending-bytes", param("qb", Type::Bytes)),
+        ("list", E::List(vec![E::Number(1)])),
+    ];
+    let mut out = vec![];
+    for (an, a) in palette.iter() {
+        for (bn, b) in palette.iter() {
+            out.push((format!("concat({an},{bn})"), E::EvalBuiltIn(Box::new(B::Concat(a.clone(), b.clone())))));
+        }
+    }
+    out
 }
 
 /// Integer-valued expressions for the redex sweep of C07: operand classes, containers, operators.
